@@ -203,6 +203,7 @@ func execEdit(c core.Case) []core.Rec {
 			res["msg"] = fmt.Sprint(callErr)
 		} else if callErr != nil {
 			res["err"] = ErrClass(callErr)
+			res["msg"] = brief(callErr.Error())
 		} else {
 			res["ok"] = true
 		}
@@ -277,4 +278,11 @@ func findAll(f *fx.Fixture, kind *fx.StoreKind, storeName string, root any, post
 	}
 	return core.Rec{"chk": "findall", "schema": f.Name, "impl": storeName, "tree": post, "present": results, "gone": gone,
 		"step": fmt.Sprintf("%d-find", step), "sig": core.Rec{"impl": storeName, "k": op.K, "at": atKind(f, op.At)}}
+}
+
+func brief(s string) string {
+	if len(s) > 160 {
+		return s[:160]
+	}
+	return s
 }
